@@ -155,13 +155,18 @@ claim("C13", "other",
       "record r over the examined components (ghost function with its complete characterisation; the code's nested np.max / comparison "
       "chain is proved equal to it) and GM = max_r MX(r) when normalised, the returned list is the order-preserving subsequence of the same "
       "objects with MX(r) (/GM) < threshold (ghost kept-count KC, result[KC(r)] is records[r]), and an attached object ends with both masks "
-      "equal to that selection on every azimuth, whatever masks it carried before. Bounded (labelled): sta_lta_window_rejection - numpy "
-      "reshape / mean(axis=1) are outside the PyVC subset - for every admissible number of samples per STA/LTA: kept iff all ratios of all "
+      "equal to that selection on every azimuth, whatever masks it carried before. sta_lta_window_rejection (components ns+ew+vt or vt; no "
+      "object or a traditional object): a record is kept iff on every examined component every short-term average divided by the long-term "
+      "average lies within [min, max], with p = floor(sta_seconds/dt) samples per average, q = n // p averages over the first p q samples and the "
+      "long-term average over the first min(floor(lta_seconds/dt), p q) samples (the averages are named functions of the samples: reshape, "
+      "slicing and abs are executed symbolically and matched against their definitions, np.mean over samples trusted); the for-else / break "
+      "structure gives the same subsequence / mask bookkeeping; IndexError only if an averaging length exceeds the record. Bounded "
+      "(labelled): the STA/LTA contract natively for every admissible number of samples per STA/LTA: kept iff all ratios of all "
       "examined components lie inside the limits (cases within 1e-9 of a limit set aside), object identity and order, records unmodified, "
       "masks, amplitude scales 1e-13..1e5, conjunction over components, monotonicity in the limits; and the maximum-value contract natively "
       "incl. call sequences.",
       TB + "A-NP-MAX/A-NP-ABS; azimuthal case proved for two azimuths (concrete list unrolled); monotonicity of KC from a proved step lemma (A-INDUCTION).",
-      "contract-based deductive verification (symbolic record lists, ghost max / kept-count functions; z3+cvc5) + bounded native evaluation of the STA/LTA contract", "DESIGN.md 5/C13")
+      "contract-based deductive verification of both rejection functions (symbolic record lists, ghost max / kept-count functions, named averages; z3+cvc5) + bounded native evaluation of both contracts", "DESIGN.md 5/C13")
 
 claim("C16", "other",
       "Proof (every obligation discharged by z3/cvc5 on the source re-read from /repo): sesame.peak_index returns the index of the highest local "
